@@ -10,6 +10,7 @@ mod c09;
 mod c10;
 mod c11;
 mod c12;
+mod c13;
 mod cli;
 mod c14;
 mod c17;
@@ -85,6 +86,7 @@ fn main() {
         "C10" => c10::run(&ctx),
         "C11" => c11::run(&ctx),
         "C12" => c12::run(&ctx),
+        "C13" => c13::run(&ctx),
         "C14" => c14::run(&ctx),
         "C17" => c17::run(&ctx),
         "C18" => c18::run(&ctx),
@@ -110,6 +112,7 @@ fn replay(id: &str, v: &serde_json::Value) -> i32 {
         "C10" => c10::replay(v),
         "C11" => c11::replay(v),
         "C12" => c12::replay(v),
+        "C13" => c13::replay(v),
         "C14" => c14::replay(v),
         "C17" => c17::replay(v),
         "C18" => c18::replay(v),
